@@ -6,6 +6,7 @@ C09 — All Toeplitz evaluation methods compute the same banded product.
 driver executes.  The FFT is abstracted as exact circular convolution (A3).
 -/
 import FuraxProofs.Lemmas.ToeplitzSums
+import FuraxProofs.Lemmas.ToeplitzDense
 import FuraxGenerated.Tables
 namespace Furax.C09
 open Furax Toeplitz Finset
@@ -26,6 +27,19 @@ theorem fft_correct (h l : Nat) (band x : Nat → α) (i : Nat) (hi : i < l) :
 of blocks, every length -/
 theorem overlapSave_correct (F h l : Nat) (band x : Nat → α) (hF : 2 * h + 1 ≤ F) (i : Nat) (hi : i < l) :
     applyOverlapSave F h l band x i = toep h l band x i := overlapSave_eq F h l band x hF i hi
+
+/-- **the dense scatter builds the band matrix**: entry (r, c) of `dense_symmetric_band_toeplitz(n, band)`
+is `band[|r−c|]` when `|r−c| < K` and 0 otherwise — every `n`, every `K` including `K > n` (out-of-range
+scatter updates are dropped, wrapped indices never land in range) -/
+theorem dense_entry_correct {β : Type} [Zero β] (n h : Nat) (band : Nat → β) (r c : Nat) (hr : r < n) (hc : c < n) :
+    denseEntry n h band r c = if dist r c ≤ h then band (dist r c) else 0 := dense_entry n h band r c hr hc
+
+/-- **dense** method = specification; `as_matrix()` of one batch row is this matrix, and it is symmetric -/
+theorem dense_correct (h l : Nat) (band x : Nat → α) (i : Nat) (hi : i < l) :
+    applyDense h l band x i = toep h l band x i := applyDense_eq h l band x i hi
+
+theorem dense_symmetric {β : Type} [Zero β] (n h : Nat) (band : Nat → β) (r c : Nat) (hr : r < n) (hc : c < n) :
+    denseEntry n h band r c = denseEntry n h band c r := dense_symm n h band r c hr hc
 
 /-- hence the three matrix-free methods agree with each other on every input -/
 theorem methods_agree (F h l : Nat) (band x : Nat → α) (hF : 2 * h + 1 ≤ F) (i : Nat) (hi : i < l) :
